@@ -42,6 +42,55 @@ CLAIMS["C18"] = dict(
     technique="bounded model checking (Kani/CBMC recursion unwinding assertions on concrete chains), native stack probe as replay",
 )
 
+ORI = "Trusted: Kani 0.68/CBMC 6.11 semantics of Rust and IEEE-754; robust::orient2d replaced by the exact determinant on lattice inputs (DESIGN 2.3, trusted, native replays run the real predicate). "
+GLUE = "Whole BooleanOp calls cannot be executed symbolically (DESIGN 1): the sweep loop (G-SWEEP), the contour walk (G-WALK) and the composition of the unit results (G-COMP) are paper arguments and outside the claim. "
+
+CLAIMS["C01"] = dict(
+    text="partial, compositional: (i) edge selection: compute_fields' membership/transition equals op(below) != op(above) / op(above) with op the Boolean function itself, for every operation and the COMPLETE flag space (plain edges, coincident twins, vertical predecessors); "
+         "(ii) dispatch: the public impls make one call with (self, rhs) as (subject, clipping), skip the sweep iff the boxes are disjoint, and the shortcut returns empty / subject / subject++clipping. Each decided by SAT on the real function.",
+    design_ref="DESIGN.md 4 C01", note=ORI + GLUE + "dispatch harnesses use contract models of fill_queue/subdivide/connect_edges (listed in the evidence).", technique=TECH)
+CLAIMS["C02"] = dict(
+    text="partial, compositional: (i) Contour::initialize_from_context implements the four parent cases of the paper on every forest of 3 contours and every lower edge, exactly the parent gains the hole id; "
+         "(ii) the transition recorded on plain and shared edges (which decides hole vs exterior) is the geometric truth for the complete flag space, and prev_in_result skips vertical/non-result edges; "
+         "(iii) precompute_iteration_order never leaves a vertex group; (iv) sweep-path assembly in mod.rs (thorough tier, memory permitting).",
+    design_ref="DESIGN.md 4 C02", note=ORI + GLUE + "That the recorded lower result edge is geometrically the nearest one, and merging of touching pieces by the walk, are outside.", technique=TECH)
+CLAIMS["C03"] = dict(
+    text="partial: panic-freedom of units under their preconditions (every harness carries Kani's index/unwrap/overflow/RefCell-borrow/debug_assert/unwinding checks) plus targeted obligations: "
+         "initialize_from_context with an unassigned lower contour id (KNOWN-FINDING KF3), divide_segment: both pieces non-degenerate and all new events in the future of the sweep (progress), one-ulp lattice (KNOWN-FINDING KF4), empty operands never reach the sweep.",
+    design_ref="DESIGN.md 4 C03, 5", note=ORI + GLUE + "Event-count bound and absence of runaway loops for whole calls, 10^6-edge inputs are outside; stack depth is C18. Kani models the debug-assertion build; replays run dev and release profiles.", technique=TECH)
+CLAIMS["C04"] = dict(
+    text="partial: intersection() on all pairs of lattice segments (N x N window, f32 quick / f64 thorough): points inside both boxes, within tolerance of the exact rational intersection, bit-exact for axis-parallel segments, endpoint hits return the endpoint bit-identically; "
+         "possible_intersection divides both segments at that one point and divide_segment creates vertices exactly there; precompute_iteration_order walks only within one vertex.",
+    design_ref="DESIGN.md 4 C04", note=ORI + GLUE + "Ring closure, >= 3 vertices, orientation of assembled rings (contour walk) and general-position floats are outside.", technique=TECH)
+CLAIMS["C06"] = dict(
+    text="partial: (i) empty operands and box-disjoint operands through the dispatch harnesses (an operand without polygons always takes the shortcut; results are the obvious combinations; boxes that merely touch are swept); "
+         "(ii) pair-level self-operation/commutativity content of L-CF (a shared edge with equal transitions is kept by exactly intersection and union, and the table is symmetric in the operand tags for the commutative operations); "
+         "(iii) subject-first tie-breaks of both orders and the typing of coincident edges (Overlap arm templates).",
+    design_ref="DESIGN.md 4 C06", note=ORI + GLUE, technique=TECH)
+CLAIMS["C07"] = dict(
+    text="partial: the four BooleanOp impls forward identically (Polygon = one-element MultiPolygon on either side, order preserved); per edge, process_polygon yields the same (left, right, operand) event pair whichever way the edge is written, "
+         "skips collapsed edges without touching the box, and fill_queue passes every ring on exactly once with the documented ids/flags for all operations.",
+    design_ref="DESIGN.md 4 C07", note=ORI + GLUE + "Ring rotation/reversal reduce to the per-edge statements by the independence of edges in process_polygon (paper step). Part order only changes contour ids.", technique=TECH)
+CLAIMS["C08"] = dict(
+    text="partial: intersection() commutes bit-identically with scaling by 2^k (k in -3..3) on all lattice segment pairs; every run with a non-default VERIF_SEED re-decides all lattice harnesses on an integer-translated and 2^K-scaled window.",
+    design_ref="DESIGN.md 4 C08", note=ORI + GLUE + "Mirror / transpose / quarter turn permute code paths of the whole sweep and are outside.", technique=TECH)
+CLAIMS["C13"] = dict(
+    text="partial, compositional: queue filling per edge (exactly one linked pair, left = smaller endpoint, exact box) and per ring protocol; divide_segment contract; possible_intersection one arm at a time "
+         "(None, Point with contract models of its callees; Overlap on 9 interval configurations x 4 directions x operand assignment with the real callees): which segments are split, where, typing and return code.",
+    design_ref="DESIGN.md 4 C13", note=ORI + GLUE + "That checking neighbours only (on insertion and after removal) suffices for planarity is the sweep-loop glue and outside.", technique=TECH)
+CLAIMS["C15"] = dict(
+    text="both public orders decided on all pairs of lattice segments: SweepEvent::cmp (any endpoint events, f64 quick / f32 thorough) never Equal, antisymmetric, equal to the reference order (x, y, right-before-left, lower segment first, subject first); "
+         "compare_segments Equal iff identical, antisymmetric, equal to the vertical order of non-crossing pairs where separated; thorough: transitivity on triples, order_events on 4 events, larger windows.",
+    design_ref="DESIGN.md 4 C15", note=ORI + "Precondition = validity of co-occurring events: two edges of one operand never overlap. Bounds: N = 4 (event pairs), 3 (segment pairs, quick) lattice window; pairs and triples only.", technique=TECH)
+CLAIMS["C16"] = dict(
+    text="intersection(): None/Point/Overlap exactly as the integer reference on all lattice segment pairs, containment, tolerance, endpoint reuse, argument-order independence; possible_intersection arm by arm (None, Point, Overlap templates); "
+         "divide_segment contract incl. the one-ulp lattice where the documented bump is live (KNOWN-FINDING KF4: the two segments get different points).",
+    design_ref="DESIGN.md 4 C16", note=ORI + GLUE + "Bound: N x N lattice windows (N = 4 quick, 6 thorough) anywhere below 2^20, not the 2^25 of the property text; general floats outside. Point arm uses contract models of intersection/divide_segment.", technique=TECH)
+CLAIMS["C17"] = dict(
+    text="the splay map against a sorted-array reference: one harness per update sequence (quick: all queries after insert-insert and insert-remove; thorough: up to four updates), ALL keys (< 4) and values symbolic, so every key order/duplicate/absent key and every tree shape reachable by the sequence is covered: "
+         "get/contains/next/prev/min/max/len, BST shape, consuming iteration in mixed directions, and reference stability of lookup results across further lookups.",
+    design_ref="DESIGN.md 4 C17", note="Bound: <= 2 updates (quick) / <= 4 updates (thorough), key universe of 4; long histories and larger trees are outside. clear/extend/get_mut/Index are thorough-tier or outside (see DESIGN).", technique=TECH)
+
 _PENDING = "check not built yet in this session (planned, see DESIGN.md 4)"
 NOT_APPLICABLE = {
     "C09": "needs two complete sweeps compared, or the sweep-loop glue G-SWEEP; whole calls cannot be executed symbolically (DESIGN.md 1, 4 C09); its local mechanisms are decided under C13 (boxes) and C01/C06 (shortcut)",
